@@ -11,6 +11,7 @@ import re, itertools
 from cbor import *
 from gen import *
 import pyspec
+import combos
 
 Q = lambda tier, q, t: q if tier == "quick" else t
 
@@ -601,6 +602,8 @@ def cases_C07(rng, tier):
         for ty, b in (("Value", v), ("Header", head(5, 1) + enc(I(99)) + v), ("CoseKey", head(5, 2) + b"\x01\x01" + enc(I(-1)) + v)):
             out.append(case("dec", ty, b, fam="dec", key=(ty, b)))
             out.append(case("rt", ty, b, fam="rt-f4", key=(ty, b)))
+    for f in (combos.header_combo_cases, combos.key_combo_cases, combos.claims_combo_cases, combos.kdf_combo_cases, combos.msg_combo_cases):
+        out += [c for c in f(case, 3) if '-rt' in c['fam']]
     return out
 
 def post_C07(cases, impl):
@@ -661,6 +664,7 @@ def cases_C08(rng, tier):
         out.append(case("dec", "Header", enc(M((I(3), T(t)))), fam="content-type-ok", expect_re=r"ok .*"))
     for t in CT_TEXT_BAD:
         out.append(case("dec", "Header", enc(M((I(3), T(t)))), fam="content-type-bad", expect_re=r"err:\w+"))
+    out += combos.header_combo_cases(case, 1) + (combos.header_combo_cases(case, 2) if tier != 'quick' else [])
     return out
 
 def post_groups(cases, impl):
@@ -730,6 +734,7 @@ def cases_C09(rng, tier):
                         expect_re=(r"err:\w+" if bad else r"ok .*")))
         out.append(case("dec", "CoseEncrypt", enc(A(B(b""), M(), NULL, A(r1))), fam="nested-recipient",
                         expect_re=(r"err:\w+" if bad else r"ok .*")))
+    out += combos.msg_combo_cases(case, 1) + (combos.msg_combo_cases(case, 2) if tier != 'quick' else [])
     return out
 
 # ================================================================= C10
@@ -750,6 +755,7 @@ def cases_C10(rng, tier):
         out.append(case("dec", "CoseKeySet", enc(wk), fam="keyset-kind"))
         out.append(case("dec", "CoseKey", enc(wk), fam="key-kind"))
         out.append(case("dec", "CoseKeySet", enc(A(M((I(1), I(1))), wk)), fam="keyset-element-kind"))
+    out += combos.key_combo_cases(case, 1) + (combos.key_combo_cases(case, 2) if tier != 'quick' else [])
     return out
 
 # ================================================================= C18
@@ -780,6 +786,8 @@ def cases_C18(rng, tier):
             else:
                 out.append(case("encdec", ty, enc(d), fam="encode:" + ty,
                                 expect="ok %s ok %s" % (want.hex(), pyspec.show(pyspec.assign(ty, d)))))
+    out += combos.claims_combo_cases(case, 1) + combos.kdf_combo_cases(case, 1)
+    if tier != 'quick': out += combos.claims_combo_cases(case, 2) + combos.kdf_combo_cases(case, 2)
     return out
 
 # ================================================================= C11
@@ -858,6 +866,7 @@ def cases_C11(rng, tier):
                             expect="ok %s ok %s" % (want.hex(), pyspec.show(pyspec.assign(ty, d2)))))
         want = enc(pyspec.header_map(h))
         out.append(case("encdec", "Header", enc(h), fam="single-field-header", expect="ok %s ok %s" % (want.hex(), pyspec.show(pyspec.assign("Header", h)))))
+    out += combos.built_combo_cases(case, 1) + (combos.built_combo_cases(case, 2) if tier != 'quick' else [])
     return out
 
 # ================================================================= C12
@@ -1187,6 +1196,7 @@ def cases_C19(rng, tier):
     for a, b in (("iv", "partial_iv"), ("partial_iv", "iv")):
         out.append(case("build", "Header", enc(A(A(T(a), B(b"\x01")), A(T(b), B(b"\x02")))), fam="iv-clears",
                         check=lambda c, o: None if re.search(r",h02,h,|,h,h02,", o) else "both IV fields populated or wrong one kept"))
+    out += combos.builder_pair_cases(case, builder_ops, BUILDERS, 1)
     return out
 
 def cases_C06(rng, tier):
